@@ -48,6 +48,7 @@ pub(crate) struct DataEntries {
 #[derive(Debug)]
 struct LoopState<'a> {
     variable: &'a str,
+    index: i64,
     max: i64,
     stmts: &'a [Stmt],
 }
@@ -87,6 +88,7 @@ impl<'a> LoopState<'a> {
             self,
             LoopState {
                 variable: "",
+                index: 0,
                 max: 0,
                 stmts: &[],
             },
@@ -144,6 +146,7 @@ impl<'a> StmtIterator<'a> {
                         } => {
                             self.inner_state = StmtIteratorState::StartLoop(LoopState {
                                 variable,
+                                index: 0,
                                 max: max.eval(ctx)?,
                                 stmts: inner,
                             })
@@ -187,13 +190,9 @@ impl<'a> StmtIterator<'a> {
                     };
                 }
                 StmtIteratorState::EndIterateInner(loop_state) => {
-                    let prev_value = ctx
-                        .get(loop_state.variable)
-                        .unwrap()
-                        .value()
-                        .expect("Expected an integer value");
-                    let value = prev_value + 1;
+                    let value = loop_state.index + 1;
                     if value < loop_state.max {
+                        loop_state.index = value;
                         ctx.set(loop_state.variable, value);
                         self.inner_state = StmtIteratorState::StartIterateInner(loop_state.take());
                     } else {
